@@ -77,6 +77,9 @@ def cases(tier):
             for nrewind in (2, 3):
                 yield dict(mols=mols, tier=tier, idx=i, boxsrc="box", inp="c-complete", res=res, grid=True, fault=2, nrewind=nrewind)
                 i += 1
+            # the same with the other residues supplied as centres only (-mc): abandoned attempts must keep them
+            yield dict(mols=mols, tier=tier, idx=i, boxsrc="none", inp="mc-complete", res=res, grid=True, fault=2, nrewind=2)
+            i += 1
 
 
 def materialise(cfg):
@@ -100,7 +103,7 @@ def materialise(cfg):
     if cfg["inp"]:
         centres, atoms = supplied_coords(rl)
         cand = [i for i, x in enumerate(rl) if not (cfg["res"] and x[3] == cfg["res"])]
-        if cfg["inp"] == "c-complete":
+        if cfg["inp"] in ("c-complete", "mc-complete"):
             given = cand
         else:
             given = cand[: max(1, len(cand) // 2)]
